@@ -416,7 +416,7 @@ def main(ctx):
         for name, mk, fn in iface_cases(rng):
             runs.append(generic_run(rng, name, mk, fn))
             ctx.count('V_iface_runs')
-    for _ in range(25 if quick else 400):
+    for _ in range(50 if quick else 400):
         runs.append(batch_run(rng))
         ctx.count('V_batch_runs')
     workdir = tlc.subdir('c18-stores')
